@@ -762,3 +762,48 @@ def reach_with_variants(f, start, stop=()):
         for s2 in succs:
             work.append((s2, nst))
     return out
+
+
+def bool_returns_from(f, start, limit=40):
+    """possible values ('true'/'false'/'?') of the bool return place when execution starts at block `start`: constant propagation
+    through `x = const`, `x = copy y`, `x = Not(y)` along the (branch-free or const-branching) way to the return"""
+    out = set()
+    work = [(start, ())]
+    seen = set()
+    n = 0
+    while work and n < 400:
+        n += 1
+        b, st = work.pop()
+        if (b, st) in seen:
+            continue
+        seen.add((b, st))
+        env = dict(st)
+        for s_ in f.blocks[b]["s"]:
+            if s_[0] != "A" or s_[1][1]:
+                continue
+            l, rv = s_[1][0], s_[2]
+            v = None
+            if rv[0] == "use":
+                if rv[1][0] == "k":
+                    v = rv[1][1].get("v") if rv[1][1].get("ty") == "bool" else None
+                elif not rv[1][1][1]:
+                    v = env.get(rv[1][1][0])
+            elif rv[0] == "un" and rv[1] == "Not" and rv[2][0] != "k" and not rv[2][1][1]:
+                x = env.get(rv[2][1][0])
+                v = {"true": "false", "false": "true"}.get(x)
+            if v is None:
+                env.pop(l, None)
+            else:
+                env[l] = v
+        t = f.blocks[b]["t"]
+        if t[0] == "ret":
+            out.add(env.get(0, "?"))
+            continue
+        succs = list(f.succ[b])
+        if t[0] == "switch" and t[1][0] != "k" and not t[1][1][1] and env.get(t[1][1][0]) in ("true", "false"):
+            si = f.switch_info(b)
+            if si and "true" in si["arms"]:
+                succs = [si["arms"][env[t[1][1][0]]]]
+        for s2 in succs:
+            work.append((s2, tuple(sorted(env.items()))))
+    return out
